@@ -1,0 +1,57 @@
+//! Verification hooks (cargo feature `verif`, off by default).
+//!
+//! Nothing in this module changes behaviour unless one of the `SLOC_GUARD_VERIF_*`
+//! environment variables is set by the external verification harness:
+//!
+//! - `SLOC_GUARD_VERIF_NOW=<secs>` pins the wall clock read by `state::current_unix_timestamp`.
+//! - `SLOC_GUARD_VERIF_CRASH=<point>` (optionally with `SLOC_GUARD_VERIF_CRASH_FILE=<file name>`)
+//!   aborts the process when the named point is reached (for that file).
+//! - `SLOC_GUARD_VERIF_BARRIER=<dir>` makes the process announce every point by creating
+//!   `<dir>/<pid>.<seq>.<point>.at` and wait until the controller creates the matching `.go` file.
+
+use std::path::Path;
+use std::sync::atomic::{AtomicUsize, Ordering};
+
+static SEQ: AtomicUsize = AtomicUsize::new(0);
+
+/// Pinned clock, if any.
+#[must_use]
+pub fn now_override() -> Option<u64> {
+    std::env::var("SLOC_GUARD_VERIF_NOW").ok()?.parse().ok()
+}
+
+fn file_selected(path: &Path) -> bool {
+    match std::env::var("SLOC_GUARD_VERIF_CRASH_FILE") {
+        Ok(want) => path.file_name().and_then(|n| n.to_str()) == Some(want.as_str()),
+        Err(_) => true,
+    }
+}
+
+/// Is the crash point `name` armed for `path`?
+#[must_use]
+pub fn crash_armed(name: &str, path: &Path) -> bool {
+    std::env::var("SLOC_GUARD_VERIF_CRASH").is_ok_and(|c| c == name) && file_selected(path)
+}
+
+/// A named point of a load / save protocol on the state file `path`.
+pub fn point(name: &str, path: &Path) {
+    if crash_armed(name, path) {
+        std::process::abort();
+    }
+    let Ok(dir) = std::env::var("SLOC_GUARD_VERIF_BARRIER") else {
+        return;
+    };
+    if let Ok(only) = std::env::var("SLOC_GUARD_VERIF_BARRIER_FILE") {
+        if path.file_name().and_then(|n| n.to_str()) != Some(only.as_str()) {
+            return;
+        }
+    }
+    let seq = SEQ.fetch_add(1, Ordering::SeqCst);
+    let base = Path::new(&dir).join(format!("{}.{seq}.{name}", std::process::id()));
+    let _ = std::fs::write(base.with_extension("at"), name);
+    let go = base.with_extension("go");
+    let start = std::time::Instant::now();
+    while !go.exists() && start.elapsed() < std::time::Duration::from_secs(60) {
+        std::thread::sleep(std::time::Duration::from_millis(2));
+    }
+}
